@@ -27,7 +27,7 @@ import sys
 import tempfile
 import traceback
 from pathlib import Path
-from typing import Any, Dict, List, Optional, Tuple
+from typing import Sequence, Any, Dict, List, Optional, Tuple
 
 from ..core import Ctx, MachineryError, chunks, NCPU
 from ..projects import waiting_modules as P_waiting
@@ -63,7 +63,7 @@ class RunTimeout(BaseException):
     """The run did not end within the time the harness gives it."""
 
 
-def observed_run(roots: List[str], out: str, docformat: str, W: bool, timeout: int = 120) -> Dict[str, Any]:
+def observed_run(roots: List[str], out: str, docformat: str, W: bool, timeout: int = 120, extra: Sequence[str] = ()) -> Dict[str, Any]:
     """Run the real driver.main in this process under run-time wrappers; returns the event trace and observations."""
     import io
     import contextlib
@@ -122,7 +122,7 @@ def observed_run(roots: List[str], out: str, docformat: str, W: bool, timeout: i
 
     old = signal.signal(signal.SIGALRM, on_alarm)
     signal.setitimer(signal.ITIMER_REAL, timeout, 2)
-    args = [f"--html-output={out}", f"--docformat={docformat}", "--project-name=proj", "--quiet", "--quiet", *roots]
+    args = [f"--html-output={out}", f"--docformat={docformat}", "--project-name=proj", "--quiet", "--quiet", *extra, *roots]
     if W:
         args.insert(0, "--warnings-as-errors")
     buf = io.StringIO()
@@ -199,7 +199,7 @@ def _worker(job: Dict[str, Any]) -> Dict[str, Any]:
                 p.write_text(content, encoding="utf-8", errors="surrogateescape")
             else:
                 p.write_bytes(bytes(content))
-        r = observed_run([str(src / x) for x in (roots or ["pk"])], str(d / "out"), job["docformat"], job["W"])
+        r = observed_run([str(src / x) for x in (roots or ["pk"])], str(d / "out"), job["docformat"], job["W"], extra=job.get("extra") or ())
         r["job"] = {k: v for k, v in job.items() if k != "scratch"}
         return r
     finally:
@@ -436,7 +436,7 @@ def run(ctx: Ctx) -> int:
     # ---- adversarial corpus (hand-written seams), every case under several docformats
     from .. import adversarial, adversarial2, adversarial3, adversarial4
     fmts = ["epytext", "restructuredtext", "google"] if ctx.quick else DOCFORMATS
-    ajobs = [{"kind": "adversarial:" + c["name"], "files": c["files"], "roots": c["roots"], "docformat": f, "W": (i % 2 == 1), "id": i}
+    ajobs = [{"kind": "adversarial:" + c["name"], "files": c["files"], "roots": c["roots"], "docformat": f, "W": (i % 2 == 1), "id": i, "extra": c.get("extra")}
              for c in adversarial.cases() + adversarial2.cases2() + adversarial3.cases3() + adversarial4.cases4() for i, f in enumerate(fmts)]
     aouts = run_jobs(ctx, ajobs)
     astats = {"runs": 0, "exceptions": 0}
